@@ -51,7 +51,7 @@ class NoneDefault(object):
         n = norm(e)
         if n in env:
             return env[n]
-        if n.endswith('config.' + self.config_attr) or n == self.config_attr:
+        if isinstance(e, (ast.Attribute, ast.Name)) and (n.endswith('config.' + self.config_attr) or n == self.config_attr):
             return 'CONFIG'
         if isinstance(e, ast.Constant) and e.value is None:
             return 'NONE'
